@@ -11,6 +11,7 @@ deliveries (no block inside `event()`).
 import EdzedModel.Dispatch
 import EdzedProofs.Dispatch
 import EdzedProofs.DispatchTie
+import EdzedProofs.DispatchPersist
 import EdzedProofs.HandlersTie
 import EdzedModel.Gen.Constants
 
@@ -459,6 +460,94 @@ theorem fuel_suffices_resend (c : Circ) (s : St) (d : Nat) (p : St × Res) (hr :
     · cases hr
   · cases hr
 
+/-! ### persistent blocks: `AddonPersistence.event` around `SBlock.event`
+
+`persistEvent` (EdzedProofs/DispatchPersist.lean) runs the action list translated from the CURRENT source of
+`AddonPersistence.event` (`Gen.TrP2.eventActs`, generated for C06) with `super().event()` = the model's
+`deliver`.  For every circuit, state, event, every value of `persistent` / `sync_state` and whether or not the
+save fails: -/
+
+/-- the wrapper never leaves `_event_active` set (nor changes any flag or frame): it adds nothing between the
+    `finally` of `SBlock.event` and its caller but the save -/
+theorem persist_wrapper_keeps_guard (c : Circ) (fuel : Nat) (sync saveRaises : Bool) (p : PSt) (d : Nat)
+    (et : EType) (data : Data) :
+    (persistEvent c fuel sync saveRaises p d et data).1.st = (deliver c fuel p.st d et data).1 := by
+  unfold persistEvent Gen.TrP2.eventActs
+  simp only []
+  repeat' split
+  all_goals simp [runPersistPrims]
+
+theorem persist_wrapper_guard_balanced (c : Circ) (fuel : Nat) (sync saveRaises : Bool) (p : PSt) (d : Nat)
+    (et : EType) (data : Data) :
+    (persistEvent c fuel sync saveRaises p d et data).1.st.active = p.st.active := by
+  rw [persist_wrapper_keeps_guard]; exact guard_balanced c fuel p.st d et data
+
+/-- **the save runs outside the guard**: at most one save per call, and `get_state()` then sees the block's
+    own `_event_active` false – the save comes after `SBlock.event` has returned (after its `finally`), never
+    for a refused or failed event, so it cannot re-enter a handler that is still running.  (What it can see is
+    an OUTER transition of the same FSM suspended in the documented chained-transition window, when this call
+    is the nested one: the harness tags those runs `saved:inside-chained-transition-window`.) -/
+theorem persist_save_runs_outside_guard (c : Circ) (fuel : Nat) (sync saveRaises : Bool) (p : PSt) (d : Nat)
+    (et : EType) (data : Data) :
+    (persistEvent c fuel sync saveRaises p d et data).1.saves = p.saves ∨
+    ((persistEvent c fuel sync saveRaises p d et data).1.saves = false :: p.saves ∧
+      isExc (deliver c fuel p.st d et data).2 = false ∧ p.st.active d = false) := by
+  have hg := congrFun (guard_balanced c fuel p.st d et data) d
+  by_cases hact : p.st.active d = true
+  · -- a busy block refuses (or the type check fails): `super().event` raises, no save
+    left
+    have hexc : isExc (deliver c fuel p.st d et data).2 = true := by
+      cases fuel with
+      | zero => simp [deliver, isExc]
+      | succ fuel =>
+        unfold deliver
+        split
+        · simp [isExc]
+        · split
+          · simp [isExc]
+          · simp [hact, isExc]
+    unfold persistEvent Gen.TrP2.eventActs
+    simp only [hexc, if_true]
+    split <;> simp [runPersistPrims]
+  · have hact : p.st.active d = false := by simpa using hact
+    unfold persistEvent Gen.TrP2.eventActs
+    simp only []
+    split
+    · left; split <;> simp [runPersistPrims]
+    · rename_i hne
+      split
+      · right
+        refine ⟨?_, by simpa using hne, hact⟩
+        split <;> simp [runPersistPrims, hg, hact]
+      · left; simp [runPersistPrims]
+
+/-- an exception of `super().event()` is re-raised unchanged (never swallowed), after persistence has been
+    disabled when the simulation is no longer ready -/
+theorem persist_wrapper_reraises (c : Circ) (fuel : Nat) (sync saveRaises : Bool) (p : PSt) (d : Nat)
+    (et : EType) (data : Data) (x : Exc) (h : (deliver c fuel p.st d et data).2 = .exc x) :
+    (persistEvent c fuel sync saveRaises p d et data).2 = some (.exc x) ∧
+    ((persistEvent c fuel sync saveRaises p d et data).1.persistent =
+      (p.persistent && (deliver c fuel p.st d et data).1.error.isNone)) := by
+  unfold persistEvent Gen.TrP2.eventActs
+  simp only [h, isExc, if_true]
+  split
+  · rename_i hc
+    simp only [Bool.and_eq_true, Bool.not_eq_eq_eq_not, Bool.not_true] at hc
+    simp [runPersistPrims, h, hc.2]
+  · rename_i hc
+    simp only [Bool.and_eq_true, Bool.not_eq_eq_eq_not, Bool.not_true, not_and, Bool.not_eq_false] at hc
+    simp only [runPersistPrims, h, true_and]
+    cases hp : p.persistent <;> simp_all
+
+/-- a handled event returns the handler's value (after the save, if any, succeeded) -/
+theorem persist_wrapper_returns (c : Circ) (fuel : Nat) (sync : Bool) (p : PSt) (d : Nat)
+    (et : EType) (data : Data) (v : Val) (h : (deliver c fuel p.st d et data).2 = .ret v) :
+    (persistEvent c fuel sync false p d et data).2 = some (.ret v) ∧
+    (persistEvent c fuel sync false p d et data).1.persistent = p.persistent := by
+  unfold persistEvent Gen.TrP2.eventActs
+  simp only [h, isExc, Bool.false_eq_true, if_false]
+  split <;> simp [runPersistPrims, h]
+
 /-! ### fuel_suffices -/
 
 /-- The nesting depth of `event()` calls is bounded by the circuit: with `phi s` = number of blocks
@@ -663,6 +752,20 @@ example : (initAll exWindow St.start).2 = .ret .none
     ∧ (initAll exWindow St.start).1.error = Option.none
     ∧ (initAll exWindow St.start).1.active 1 = false
     ∧ (initAll exWindow St.start).1.out 1 = .int 1 := by decide +kernel
+
+/-- the persistence wrapper on the self-loop of `exLoop` (refused one level down: re-raised, nothing saved,
+    persistence disabled because the simulation was aborted) and on a handled event of `exWindow` (one save,
+    with the guard released) -/
+def exPersistent : PSt := { st := exReady, persistent := true, saves := [] }
+
+example :
+    (persistEvent exLoop 4 true false exPersistent 0 (.name "a") []).2 = some (.exc .circuitError)
+    ∧ (persistEvent exLoop 4 true false exPersistent 0 (.name "a") []).1.persistent = false
+    ∧ (persistEvent exLoop 4 true false exPersistent 0 (.name "a") []).1.saves = []
+    ∧ (persistEvent exWindow 7 true false exPersistent 0 (.name "put") [("value", .int 5)]).2 = some (.ret (.bool true))
+    ∧ (persistEvent exWindow 7 true false exPersistent 0 (.name "put") [("value", .int 5)]).1.saves = [false]
+    ∧ (persistEvent exWindow 7 true false exPersistent 0 (.name "put") [("value", .int 5)]).1.persistent = true := by
+  decide +kernel
 
 /-- harmless outcomes exist: unknown event and missing parameter on an Input -/
 example : (rawSend exWindow exReady 0 (.name "zz") []).2 = .exc .unknownEvent
